@@ -121,7 +121,7 @@ func init() {
 			}
 		}
 		for _, c := range c12IfConds(l, "pkg/goDB", "DBWorkManager.readBlocksAndEvaluate") {
-			if strings.Contains(c, "Covered") {
+			if strings.Contains(c, "Covered") || strings.Contains(c, "Queried") {
 				out = append(out, "readBlocksAndEvaluate: "+c)
 			}
 		}
